@@ -51,7 +51,7 @@ def rule_pair(ctx, R):
         R.inst(ua.fn, "all:" + kind, {"iterates_global_map": bool(it)})
         if not it:
             R.finding(ua.fn, "all:%s:not-swept" % kind, "unsubscribe_all does not sweep the global %s map" % kind, ua.loc())
-    rm = [i for i, t in ua.calls() if re.search(r"HashSet::<u64>::remove", t["f"] or "")]
+    rm = [i for _, i, t in shared.deep_calls(ctx, ua) if re.search(r"HashSet::<u64>::remove", t["f"] or "")]
     cdel = field_calls(ua, {PM + "connections"}, r"HashMap::<u64, pubsub::SubscriberInfo>::remove(::<.*>)?$")
     R.inst(ua.fn, "all:removal", {"id_removals": len(rm), "info_removed": bool(cdel)})
     if len(rm) < 2 or not cdel:
@@ -123,46 +123,69 @@ def rule_replycount(ctx, R):
 
 
 def rule_dedup(ctx, R):
-    """one delivery per matching subscription: pushes onto the receiver list are not guarded by a
-    set keyed by connection id only"""
+    """one delivery per matching subscription: the receiver list is filled (push / extend) without a
+    filter through a set keyed by connection id only; both the channel map and -- under a match
+    test -- the pattern map are consulted.  Loops and iterator chains are read alike (the closure
+    tree of publish is searched)."""
     b = ctx.prog.need(PS + "publish")
-    pushes = [i for i, t in b.calls() if re.search(r"Vec::<\(u64, std::option::Option<std::vec::Vec<u8>>\)>::push$", t["f"] or "")]
-    R.floor("receiver_pushes", len(pushes))
+    RECV = r"\(u64, std::option::Option<std::vec::Vec<u8>>\)"
+    fills = [(body, i) for body, i, t in shared.deep_calls(ctx, b)
+             if re.search(r"Vec::<%s>::(push|extend|append|extend_from_slice)(::<.*>)?$|<std::vec::Vec<%s> as std::iter::Extend<.*>>::extend(::<.*>)?$|Iterator>::collect::<std::vec::Vec<%s>>$" % (RECV, RECV, RECV), t["f"] or "")]
+    R.floor("receiver_pushes", min(len(fills), 1))
     guards = []
-    for i, t in b.calls():
-        if re.search(r"HashSet::<u64>::(insert|contains)(::<.*>)?$", t["f"] or "") and t["t"] >= 0:
-            P = prov.operand_origins(b, t["a"][0])
+    for body, i, t in shared.deep_calls(ctx, b):
+        if re.search(r"HashSet::<u64>::(insert|contains)(::<.*>)?$", t["f"] or "") and t["a"] and not op_is_const(t["a"][0]):
+            P = prov.operand_origins(body, t["a"][0])
             if any(f.startswith(PM) for f in P.fields):
                 continue      # the global subscriber sets themselves
-            sw = shared._follow_to_switch(b, t["t"], t["d"]["l"])
-            if sw:
-                guards.append((i, sw))
-    for p_ in pushes:
-        g = [i for (i, sw) in guards if p_ in cfg.edge_dom_set(b, sw[0], sw[1]["o"]) or p_ in cfg.edge_dom_set(b, sw[0], dict(sw[1]["ts"]).get(0, -1))]
-        R.inst(b.fn, "receiver-push", {"at": b.loc(p_), "guarded_by_connection_id_set": bool(g)})
-        if g:
-            R.finding(b.fn, "dedup-by-connection",
-                      "receivers are de-duplicated by connection id (line %d): a client subscribed to the channel and to a matching pattern (or to two matching patterns) gets the message once instead of once per subscription, and PUBLISH under-counts" % b.bb_line(g[0]), b.loc(p_))
+            guards.append((body, i))
+    R.inst(b.fn, "receiver-fill", {"fill_sites": len(fills), "connection_id_set_filters": len(guards)})
+    if guards:
+        gb, gi = guards[0]
+        R.finding(b.fn, "dedup-by-connection",
+                  "receivers are de-duplicated by connection id (line %d): a client subscribed to the channel and to a matching pattern (or to two matching patterns) gets the message once instead of once per subscription, and PUBLISH under-counts" % gb.bb_line(gi), gb.loc(gi))
     # both sources are consulted
-    ch = field_calls(b, {PM + "channels"}, r"HashMap::<.*>::get(::<.*>)?$")
-    pt = field_calls(b, {PM + "patterns"}, r"HashMap::<.*>::(iter|values|keys)$")
-    pm = [i for i, t in b.calls() if callee(t) == "pubsub::pattern_matches"]
-    R.inst(b.fn, "sources", {"channel_lookup": bool(ch), "pattern_iteration": bool(pt), "pattern_match_test": bool(pm)})
+    ch = pt = False; pm = []
+    for body, i, t in shared.deep_calls(ctx, b):
+        f = t["f"] or ""
+        if re.search(r"HashMap::<.*>::get(::<.*>)?$", f) and t["a"] and PM + "channels" in prov.operand_origins(body, t["a"][0]).fields:
+            ch = True
+        if re.search(r"HashMap::<.*>::(iter|values|keys)$|IntoIterator>::into_iter$", f) and t["a"] and not op_is_const(t["a"][0]) and PM + "patterns" in prov.operand_origins(body, t["a"][0]).fields:
+            pt = True
+        if callee(t) == "pubsub::pattern_matches":
+            pm.append((body, i))
+    R.inst(b.fn, "sources", {"channel_lookup": ch, "pattern_iteration": pt, "pattern_match_test": bool(pm)})
     if not (ch and pt and pm):
         R.finding(b.fn, "sources:incomplete", "publish does not consult both the channel map and (with a match test) the pattern map", b.loc())
-    # pattern pushes are control dependent on the match test
-    for p_ in pushes:
-        P = prov.operand_origins(b, b.term(p_)["a"][1], deep=True)
+    # pattern receivers only under the match test: a fill whose element carries Some(pattern) is
+    # control dependent on the test (loop form), or the test sits in a `filter` closure of the
+    # chain that produces it (iterator form)
+    in_filter = False
+    for body, i, t in shared.deep_calls(ctx, b):
+        if re.search(r"Iterator>::(filter|filter_map|take_while|skip_while)(::<.*>)?$", t["f"] or ""):
+            for c in t.get("clos") or []:
+                cb = ctx.prog.bodies.get(c)
+                if cb is not None and any(callee(tt) == "pubsub::pattern_matches" for _, tt in cb.calls()):
+                    in_filter = True
+    for body, i in fills:
+        t = body.term(i)
+        if not re.search(r"::push$", t["f"] or "") or len(t["a"]) < 2:
+            continue
+        P = prov.operand_origins(body, t["a"][1], deep=True)
         is_pat = any(r[0] == "agg" and r[1] == "std::option::Option::Some" for r in P.roots)
         if is_pat:
-            ok = False
-            for m in pm:
-                sw = shared._follow_to_switch(b, b.term(m)["t"], b.term(m)["d"]["l"])
-                if sw and p_ in cfg.edge_dom_set(b, sw[0], sw[1]["o"]):
+            ok = in_filter
+            for mb, m in pm:
+                if mb is not body:
+                    continue
+                sw = shared._follow_to_switch(body, body.term(m)["t"], body.term(m)["d"]["l"])
+                if sw and i in cfg.edge_dom_set(body, sw[0], sw[1]["o"]):
                     ok = True
             R.inst(b.fn, "pattern-push-guard", {"under_match_test": ok})
             if not ok:
-                R.finding(b.fn, "pattern-push:not-under-match", "a pattern subscriber is added to the receivers without the pattern having matched the channel", b.loc(p_))
+                R.finding(b.fn, "pattern-push:not-under-match", "a pattern subscriber is added to the receivers without the pattern having matched the channel", body.loc(i))
+    if pm and not in_filter and not any(re.search(r"::push$", body.term(i)["f"] or "") for body, i in fills):
+        R.finding(b.fn, "pattern-push:not-under-match", "the pattern match test is not the filter of the chain that produces the pattern receivers", b.loc())
 
 
 def rule_close(ctx, R):
